@@ -52,6 +52,7 @@ package c17
 import (
 	"bytes"
 	"context"
+	"errors"
 	"crypto/sha256"
 	"encoding/base64"
 	"encoding/hex"
@@ -85,6 +86,7 @@ type kcfg struct {
 	Conv    bool   `json:"conv"`
 	NoCache bool   `json:"nocache"`
 	Plain   bool   `json:"plain"` // plain (non transactional) InmemStorage
+	Faults  bool   `json:"faults"` // rotations during which one storage write fails are part of the alphabet
 	DQ      int    `json:"dq"`    // BFS depth quick
 	DT      int    `json:"dt"`    // BFS depth thorough
 }
@@ -159,6 +161,10 @@ func configs() []kcfg {
 		kcfg{ID: "chacha/derived", Type: "chacha20-poly1305", Derived: true, DQ: 3, DT: 4},
 		kcfg{ID: "ed25519/derived", Type: "ed25519", Derived: true, DQ: 3, DT: 4},
 		kcfg{ID: "hmac", Type: "hmac", DQ: 3, DT: 4},
+		// cached policy; a rotation may be interrupted by one failing storage write (rotate-fault),
+		// on plain storage (the archive write stays) and on transactional storage (all rolled back)
+		kcfg{ID: "aes256/plain-storage/faults", Type: "aes256-gcm96", Plain: true, Faults: true, DQ: 3, DT: 4},
+		kcfg{ID: "aes256/txn-storage/faults", Type: "aes256-gcm96", Faults: true, DQ: 3, DT: 4},
 	)
 	for _, t := range []string{"aes128-gcm96", "aes256-gcm96", "chacha20-poly1305", "xchacha20-poly1305"} {
 		short := strings.SplitN(t, "-", 2)[0]
@@ -188,7 +194,7 @@ type op struct {
 
 func (o op) String() string {
 	switch o.K {
-	case "dec", "enc", "win", "trim":
+	case "dec", "enc", "win", "trim", "rotate-fault":
 		return o.K + "=" + strconv.Itoa(o.N)
 	}
 	return o.K
@@ -280,6 +286,55 @@ type world struct {
 	keptRewrap bool
 	panicked   bool
 	pending    []*rec
+	fctl       *faultCtl
+	faults     int // rotations interrupted by a storage error so far (hidden state: part of the state key)
+}
+
+// ---- storage with one failing write ---------------------------------------------
+
+type faultCtl struct {
+	failAt, puts int
+	hit          bool
+}
+
+type faultSt struct {
+	logical.Storage
+	ctl *faultCtl
+}
+
+func (f *faultSt) Put(ctx context.Context, e *logical.StorageEntry) error {
+	f.ctl.puts++
+	if f.ctl.failAt > 0 && f.ctl.puts == f.ctl.failAt {
+		f.ctl.hit = true
+		return errors.New("c17: injected storage error")
+	}
+	return f.Storage.Put(ctx, e)
+}
+
+type faultTxSt struct{ faultSt }
+
+type faultTx struct {
+	faultSt
+	tx logical.Transaction
+}
+
+func (t *faultTx) Commit(ctx context.Context) error   { return t.tx.Commit(ctx) }
+func (t *faultTx) Rollback(ctx context.Context) error { return t.tx.Rollback(ctx) }
+
+func (f *faultTxSt) BeginTx(ctx context.Context) (logical.Transaction, error) {
+	tx, err := f.Storage.(logical.TransactionalStorage).BeginTx(ctx)
+	if err != nil {
+		return nil, err
+	}
+	return &faultTx{faultSt{tx, f.ctl}, tx}, nil
+}
+
+func (f *faultTxSt) BeginReadOnlyTx(ctx context.Context) (logical.Transaction, error) {
+	tx, err := f.Storage.(logical.TransactionalStorage).BeginReadOnlyTx(ctx)
+	if err != nil {
+		return nil, err
+	}
+	return &faultTx{faultSt{tx, f.ctl}, tx}, nil
 }
 
 type art struct {
@@ -353,12 +408,20 @@ func newWorld(c kcfg, res *vout.Result) (*world, error) {
 		}
 		st = logical.NewLogicalStorage(phys)
 	}
+	fctl := &faultCtl{}
+	if c.Faults {
+		if _, ok := st.(logical.TransactionalStorage); ok {
+			st = &faultTxSt{faultSt{st, fctl}}
+		} else {
+			st = &faultSt{st, fctl}
+		}
+	}
 	conf.StorageView = st
 	b, err := transit.Factory(bg, conf)
 	if err != nil {
 		return nil, err
 	}
-	w := &world{c: c, b: b, st: st, mat: map[int]string{}, conv: map[string]string{}, res: res, stat: map[string]int64{}}
+	w := &world{c: c, b: b, st: st, mat: map[int]string{}, conv: map[string]string{}, res: res, stat: map[string]int64{}, fctl: fctl}
 	w.m = &model{}
 	if err := w.create(); err != nil {
 		return nil, err
@@ -554,6 +617,29 @@ func (w *world) step(o op) {
 		if w.obs.W != w.m.W {
 			w.bad("rotate:window", "after rotate the window is %+v, expected %+v", w.obs.W, w.m.W)
 			w.m.W = w.obs.W
+		}
+	case "rotate-fault":
+		// a rotation during which the N-th storage write fails once: a call that reports the
+		// failure must leave the window (and, as every later step checks, every key version and
+		// every ciphertext) as they were; a call that succeeds nevertheless is an ordinary rotation
+		w.fctl.puts, w.fctl.failAt, w.fctl.hit = 0, o.N, false
+		_, fail := w.do(logical.UpdateOperation, "keys/k/rotate", nil)
+		w.fctl.failAt = 0
+		if w.fctl.hit {
+			w.faults++
+			w.count("rotations_interrupted_by_a_storage_error")
+		}
+		w.observe()
+		if fail != "" {
+			expectSame("rotate with a failing storage write")
+		} else {
+			w.nextID++
+			w.m.W.Latest++
+			w.m.Keys[w.m.W.Latest] = w.nextID
+			if w.obs.W != w.m.W {
+				w.bad("rotate:window", "after rotate the window is %+v, expected %+v", w.obs.W, w.m.W)
+				w.m.W = w.obs.W
+			}
 		}
 	case "dec", "enc", "win", "allowdel":
 		data := map[string]interface{}{}
@@ -1425,6 +1511,9 @@ func (w *world) canon() string {
 		s += fmt.Sprintf(" B%+v%s", b.W, rel)
 	}
 	s += fmt.Sprintf(" mem%v pol%v arc%d", w.obs.MemKeys, w.obs.PolKeys, w.obs.ArcN)
+	if w.faults > 0 {
+		s += fmt.Sprintf(" interrupted-rotations=%d", w.faults)
+	}
 	cl := map[string]bool{}
 	for _, r := range w.recs {
 		cur := m.Keys[r.Ver] == r.ID
@@ -1518,7 +1607,11 @@ func TestVerifC17(t *testing.T) {
 		depths[c.ID] = depth
 		seen := map[string]bool{}
 		seenLast := map[string]bool{} // last level: per shard only (no successors are generated from it)
-		for _, seed := range seeds() {
+		seedsC := seeds()
+		if c.Faults {
+			seedsC = append(seedsC, []op{{"rotate-fault", 2}, {"rotate", 0}}, []op{{"rotate-fault", 1}, {"rotate", 0}})
+		}
+		for _, seed := range seedsC {
 			if stop {
 				break
 			}
@@ -1550,7 +1643,11 @@ func TestVerifC17(t *testing.T) {
 						stop = true
 						break
 					}
-					for _, o := range alpha {
+					alphaC := alpha
+					if c.Faults {
+						alphaC = append(append([]op{}, alpha...), op{"rotate-fault", 1}, op{"rotate-fault", 2})
+					}
+					for _, o := range alphaC {
 						count++
 						mine := vout.Mine(count)
 						if last && !mine {
